@@ -277,7 +277,7 @@ def make_family(rng, kind):
                 y["cast"] = rng.choice([c for c in (None, "bool", "int") if c != y["cast"]])
             vs.append(y)
     else:
-        x = [ruledrv.rule_recipe(rng, doc, cast_p=0.2, maxlen=2) for _ in range(rng.choice([1, 2]))]
+        x = [ruledrv.rule_recipe(rng, doc, cast_p=0.2, maxlen=2) for _ in range(rng.choice([1, 2, 2, 3]))]
         vs = [x, reorder_maps(copy.deepcopy(x)), [dict(r, cond=commute(r["cond"])) for r in x]]
         for _ in range(nmut):
             y = copy.deepcopy(x)
@@ -288,6 +288,12 @@ def make_family(rng, kind):
             else:
                 y[j]["cond"] = mutate_tree(rng, y[j]["cond"])
             vs.append(y)
+        if len(x) >= 2:
+            # the rules in another order, one rule twice instead of two different ones, one rule left out: whatever ==
+            # says about these, it says the same both ways round, and equal schemas judge alike
+            vs.append(list(reversed(copy.deepcopy(x))))
+            vs.append([copy.deepcopy(x[0])] * 1 + [copy.deepcopy(x[0])] + copy.deepcopy(x[2:]))
+            vs.append(copy.deepcopy(x[1:] + x[:1]))
     roles = ["x", "rebuilt", "commuted"] + ["mutant"] * (len(vs) - 3)
     ip = items_probe(vs, [])
     if ip:
